@@ -72,7 +72,8 @@ def run(res, tier, seed, broken):
 
     C.decide(res, broken, tie, bad, hunt,
              lambda c: "a registered rule was not routed to its argument as the extension contract states "
-                       "(or checkpoint changed a value/derivative)")
+                       "(or checkpoint changed a value/derivative)",
+             site_of=lambda c: c.get("site", {}))
 
 
 def replay(rp):
